@@ -6,6 +6,7 @@ import (
 	"math/rand"
 	"strings"
 	"sync"
+	"sync/atomic"
 	"time"
 
 	"k8s.io/apimachinery/pkg/api/meta"
@@ -217,6 +218,9 @@ var mapper = testutil.NewFakeRESTMapper(
 	schema.GroupVersionKind{Group: "apps", Version: "v1", Kind: "StatefulSet"},
 )
 
+var engineRuns atomic.Int64
+var errCallerShutdown = fmt.Errorf("caller is shutting down")
+
 // runEngine executes the real PollerEngine.Poll against the scripted
 // environment and records everything that arrives on the event channel.
 func runEngine(sc *scenario) observation {
@@ -227,7 +231,16 @@ func runEngine(sc *scenario) observation {
 // runEngineWith: cr is the ClusterReader handed to the engine (the env itself,
 // or a snapshot reader embedding it).
 func runEngineWith(sc *scenario, e *env, cr engine.ClusterReader) observation {
-	ctx, cancel := context.WithCancel(context.Background())
+	// every other run the caller's context carries a cancellation CAUSE (context.WithCancelCause):
+	// ctx.Err() is still context.Canceled, context.Cause(ctx) is the caller's own error (seed C17f)
+	var ctx context.Context
+	var cancel context.CancelFunc
+	if engineRuns.Add(1)%2 == 1 {
+		c, cc := context.WithCancelCause(context.Background())
+		ctx, cancel = c, func() { cc(errCallerShutdown) }
+	} else {
+		ctx, cancel = context.WithCancel(context.Background())
+	}
 	defer cancel()
 	e.sc, e.cur, e.cancel, e.tags = sc, -1, cancel, map[*event.ResourceStatus]int{}
 	var obs observation
@@ -323,7 +336,7 @@ func (sc *scenario) text(obs observation) string {
 
 var polledIDs = []int{0, 2, 3, 5, 6}
 
-func i64(v int64) *int64 { return &v }
+func i64(v int64) *int64   { return &v }
 func str(s string) *string { return &s }
 
 func genLeaf(r *rand.Rand, id int) mrs {
